@@ -89,7 +89,7 @@ func directed(w *sim.World, out *c.Out, r *c.Rng) {
 		s.PostPrice(1, sdk.MustNewDecFromStr("0.012"), false)
 		// end of block sets the price; keep the begin blocker from liquidating by using interval 2
 		s.P.LiquidationBlockInterval = 1000
-		w.Keeper().SetParams(s.Ctx, s.P)
+		kapp.SetParams(w.App, s.Ctx, "cdp", &s.P, func() { w.Keeper().SetParams(s.Ctx, s.P) })
 		s.NextBlock(10, "liq")
 		s.Liquidate(7, 5, 0, "liq")
 	}
